@@ -424,34 +424,20 @@ theorem cache_valid_iff {st : St} (hG : Ghost st) (k : Key) :
       have h3 := this.iff.mpr h2
       exact Or.inr ⟨h1, h3.1.symm, h3.2⟩
 
-theorem ce?_modCE_self (st : St) (k : Key) (f : CE → CE) : (st.modCE k f).ce? k = (st.ce? k).map f := by
-  unfold St.ce? St.modCE St.modSub
-  simp only [getElem?_modAt, if_true]
-  cases st.subs[k.1]? with
-  | none => rfl
-  | some sb => simp [getElem?_modAt]
-
-theorem ce?_mapCE (st : St) (f : Key → CE → CE) (k : Key) : (st.mapCE f).ce? k = (st.ce? k).map (f k) := by
-  unfold St.ce? St.mapCE
-  simp only [getElem?_mapI]
-  cases st.subs[k.1]? with
-  | none => rfl
-  | some sb => simp [getElem?_mapI]
-
 /-- marking makes the entry fresh (ghost semantics, part 1) -/
 theorem mark_makes_fresh (st : St) (k : Key) (e : CE) (he : st.ce? k = some e) :
     ((st.markCE k).ce? k).map CE.fresh = some true := by
   obtain ⟨sb, hs, _⟩ := ce?_mem he
   unfold St.markCE
   simp only [hs]
-  rw [ce?_modCE_self, he]
+  rw [ceOpt_modCE_self, he]
   rfl
 
 /-- `markCacheValueNotRealized` (and every notification that reaches the entry) clears freshness (part 2) -/
 theorem unmark_clears_fresh (st : St) (k : Key) (e : CE) (he : st.ce? k = some e) :
     ((st.notify [k]).ce? k).map CE.fresh = some false := by
   unfold St.notify St.invalidateMany
-  rw [ce?_mapCE, he]
+  rw [ceOpt_mapCE, he]
   have hc : 1 ≤ (reach st (st.numCE + 1) [k]).count k := by
     simp only [reach, List.count_append]
     have : [k].count k = 1 := by simp
@@ -522,10 +508,6 @@ def writes (w : World) : Op → List Nat
   | .moveAssign s d => [s, d]
   | .snap _ | .diff _ | .probeStale _ _ _ => []
 
-theorem getElem?_setSlot (l : List (Option St)) (k j : Nat) (o : Option St) (h : j ≠ k) :
-    (setSlot l k o)[j]? = l[j]? := by
-  unfold setSlot; rw [getElem?_modAt, if_neg h]
-
 /-- **copy_independent.**  An operation does not change any State object it does not write: in particular copy
 construction / assignment leave the source untouched, and no operation on a copy changes the source (and vice
 versa) — State objects share nothing. -/
@@ -535,7 +517,7 @@ theorem copy_independent (w : World) (op : Op) (k : Nat) (hk : k ∉ writes w op
   | on j o =>
     simp only [writes, List.mem_singleton] at hk
     simp only [step]; split
-    · exact getElem?_setSlot _ _ _ _ hk
+    · exact getElemOpt_setSlot _ _ _ _ hk
     · rfl
   | copyNew j =>
     simp only [writes, List.mem_singleton] at hk
@@ -547,30 +529,30 @@ theorem copy_independent (w : World) (op : Op) (k : Nat) (hk : k ∉ writes w op
     · rfl
   | copyAssign s d =>
     simp only [writes, List.mem_singleton] at hk
-    simp only [step]; split <;> exact getElem?_setSlot _ _ _ _ hk
+    simp only [step]; split <;> exact getElemOpt_setSlot _ _ _ _ hk
   | moveNew j =>
     simp only [writes, List.mem_cons, List.not_mem_nil, or_false, not_or] at hk
     simp only [step]
     by_cases hlt : k < w.sts.length
     · rw [List.getElem?_append_left (by simpa [setSlot] using hlt)]
-      exact getElem?_setSlot _ _ _ _ hk.1
+      exact getElemOpt_setSlot _ _ _ _ hk.1
     · rw [List.getElem?_eq_none (by simp [setSlot]; omega), List.getElem?_eq_none (by omega)]
   | moveAssign s d =>
     simp only [writes, List.mem_cons, List.not_mem_nil, or_false, not_or] at hk
     simp only [step]
-    rw [getElem?_setSlot _ _ _ _ hk.2, getElem?_setSlot _ _ _ _ hk.1]
+    rw [getElemOpt_setSlot _ _ _ _ hk.2, getElemOpt_setSlot _ _ _ _ hk.1]
   | clear j =>
     simp only [writes, List.mem_singleton] at hk
-    exact getElem?_setSlot _ _ _ _ hk
+    exact getElemOpt_setSlot _ _ _ _ hk
   | setNumSubs j n =>
     simp only [writes, List.mem_singleton] at hk
     simp only [step]; split
-    · exact getElem?_setSlot _ _ _ _ hk
+    · exact getElemOpt_setSlot _ _ _ _ hk
     · rfl
   | addSub j =>
     simp only [writes, List.mem_singleton] at hk
     simp only [step]; split
-    · exact getElem?_setSlot _ _ _ _ hk
+    · exact getElemOpt_setSlot _ _ _ _ hk
     · rfl
   | snap j => simp only [step]; split <;> rfl
   | diff j => rfl
